@@ -209,6 +209,8 @@ fn check_batch(header: &[String], jobs: &[Job]) -> Result<Vec<Obs>, String> {
     text.push_str(&j.src);
     text.push('\n');
   }
+  // helpers of the generic-argument form, after the cases so that line numbers still identify a case
+  text.push_str("  function <T> vid(t: T): T = t\n  function one(): int = 0\n");
   text.push_str("}\n");
   let mut heap = Heap::new();
   let m = heap.alloc_module_reference_from_string_vec(vec!["Cases".to_string()]);
@@ -295,6 +297,20 @@ pub fn replay(args: &[String]) {
       ),
       case: v.clone(),
     });
+    // the same match as an argument of a generic call whose type parameter is being inferred, with arm bodies that
+    // are calls (the checker types such an argument in its synthesis pass): every fourth case
+    if id % 4 == 0 {
+      let id = jobs.len();
+      jobs.push(Job {
+        id,
+        form: "match",
+        src: format!(
+          "  function c{id}(s: {root}): int = Cases.vid(match s {{ {} }})",
+          arm_texts.iter().map(|a| format!("{a} -> Cases.one()")).collect::<Vec<_>>().join(", ")
+        ),
+        case: v.clone(),
+      });
+    }
     if arms.len() == 1 {
       let id = jobs.len();
       jobs.push(Job {
